@@ -294,6 +294,16 @@ func run(c *core.Ctx) {
 		}
 		if len(blocked) > 0 {
 			x := blocked[c.S.Fault(len(blocked))]
+			if x.errCh != nil && x.inv != 0 && c.S.FaultP(300) && len(x.errCh) == 0 {
+				// a nil error on the error channel must not end the wait
+				c.S.Count("fault:errch-nil")
+				x.errCh <- nil
+				c.S.Quiesce()
+				if !x.task.Blocked() && !x.task.Done() {
+					continue
+				}
+				continue
+			}
 			if x.errCh != nil && x.inv != 0 && c.S.FaultP(400) {
 				if c.S.Fault(2) == 0 {
 					x.errSent = errors.New("errch-error")
